@@ -28,7 +28,7 @@ From Verif Require Import Base.Prelude Base.Str Base.Float Base.GoVal
 From Verif Require ATP.Client ATP.System Proofs.ATPClientInv Proofs.C05Vocab Proofs.C05System Proofs.C05Live
   Proofs.C05ClientHalf Proofs.C05Examples Proofs.C05Close Proofs.C05CloseEx
   Call.Step ATP.SystemV Proofs.C05Transparent Proofs.C05TransparentEx Proofs.C05V1Serial
-  Proofs.C05Param Proofs.C05Shutdown.
+  Proofs.C05Param Proofs.C05Shutdown ATP.SystemVal Proofs.C05Image Proofs.C05ImageEx.
 Import ListNotations.
 Open Scope Z_scope.
 Open Scope list_scope.
@@ -189,8 +189,11 @@ End Examples.
 (* ------------------------------------------------------------------------------------------
    PROTOCOL LAYER — the plan as it was fixed before the composed model existed (kept for
    reference; the theorems actually proved over the composition ATP/System.v are at the END of
-   this file: C05_refines, C05_never_cross_delivered, C05_every_execute_returns,
-   C05_rejected_is_error, C05_client_routes_by_run_id, C05_v1_concurrent_refuted).
+   this file: C05_never_cross_delivered, C05_refines_with_close (sessions with or without Close;
+   C05_every_execute_returns / C05_refines / C05_rejected_is_error are its close = false instances),
+   C05_clean_shutdown, C05_client_routes_by_run_id, the end-to-end statements over values
+   C05_transparent_end_to_end / C05_transparent_values (with C05_client_payload_parametric,
+   C05_value_level_is_image), C05_v1_concurrent_refuted and C05_v1_serial).
 
    Notation for the composition:
      sys N calls sched   the run of one client and one server, protocol version 3, where the
@@ -674,3 +677,67 @@ Theorem C05_client_over_values :
              (Verif.ATP.Client.init (Verif.ATP.System.sys_session (Verif.ATP.SystemV.tok_calls vcalls) close)) ls).
 Proof. exact Verif.Proofs.C05Transparent.client_over_values. Qed.
 Print Assumptions C05_client_over_values.
+
+(* ==========================================================================================
+   (P12) THE VALUE-LEVEL SYSTEM (ATP/SystemVal.v): the composition as a transition system of its own in which the client
+   component is the client model at payload := gval - the callers hold the real input values, the work-starts on the wire
+   carry them, the results carry real output values -, the server component is the server model, and tokens are only the
+   NAMES under which the server model is handed the messages (the call of the message's run id).  vsys_step mirrors
+   sys_step label for label.
+     C05_value_level_is_image   the executions of the value-level system from the session as the harness states it ARE
+                                the images of the token-level executions (label for label, every payload t replaced by
+                                the value v_den t it names, the server component identical) - no assumption that the
+                                value crossing the pipe is "the right one": the client-side safety invariant and SigInv
+                                (Proofs/C05Image.v) make the name the server receives equal to the token;
+     C05_transparent_values     hence C05_transparent_end_to_end verbatim for the value-level system: every Execute
+                                returns the real value v_spec of its own input value, Close returns nil;
+     C05_value_wire             every work-start in the value-level pipe carries the input value of the call its run id
+                                names.
+   ========================================================================================== *)
+Theorem C05_value_level_is_image :
+  forall (D : Verif.ATP.SystemV.vcfg) (vcalls : list (Verif.ATP.Client.callspec gval)) (close : bool),
+    (forall x, In x vcalls -> Verif.ATP.Client.cs_run x <> ""%string) ->
+    Verif.Proofs.ATPClientInv.wf_session (Verif.ATP.Client.mkSession vcalls close [] None None) ->
+    forall (sched : list Verif.ATP.System.slabel),
+      Verif.ATP.SystemVal.vsys_run D vcalls (Verif.ATP.SystemVal.vsys_init vcalls close) sched
+        = option_map (Verif.Proofs.C05Image.img D vcalls)
+            (Verif.ATP.System.sys_run (Verif.ATP.SystemV.v_scfg D vcalls)
+               (Verif.ATP.System.sys_init (Verif.ATP.SystemV.tok_calls vcalls) close) sched).
+Proof. exact Verif.Proofs.C05Image.vsys_is_image. Qed.
+Print Assumptions C05_value_level_is_image.
+
+Theorem C05_transparent_values :
+  forall (D : Verif.ATP.SystemV.vcfg) (vcalls : list (Verif.ATP.Client.callspec gval)) (close : bool),
+    (forall x, In x vcalls -> Verif.ATP.Client.cs_run x <> ""%string) ->
+    Verif.Proofs.ATPClientInv.wf_session (Verif.ATP.Client.mkSession vcalls close [] None None) ->
+    (forall x, In x vcalls -> decodable (Verif.ATP.Client.cs_input x)) ->
+    forall (sched : list Verif.ATP.System.slabel) (vs : Verif.ATP.SystemVal.vstate),
+      Verif.ATP.SystemVal.vsys_run D vcalls (Verif.ATP.SystemVal.vsys_init vcalls close) sched = Some vs ->
+      Verif.ATP.SystemVal.vsys_final D vcalls vs ->
+      (forall i x, nth_error vcalls i = Some x ->
+         Verif.ATP.SystemVal.vsys_res vs i = Some (Verif.ATP.SystemV.v_spec D (Verif.ATP.Client.cs_input x))) /\
+      (close = true ->
+         Verif.ATP.Client.closer (Verif.ATP.SystemVal.vcl vs) = Verif.ATP.Client.KDone Verif.ATP.Client.CloseOk).
+Proof. exact Verif.Proofs.C05Image.transparent_values. Qed.
+Print Assumptions C05_transparent_values.
+
+Theorem C05_value_wire :
+  forall (D : Verif.ATP.SystemV.vcfg) (vcalls : list (Verif.ATP.Client.callspec gval)) (close : bool),
+    (forall x, In x vcalls -> Verif.ATP.Client.cs_run x <> ""%string) ->
+    Verif.Proofs.ATPClientInv.wf_session (Verif.ATP.Client.mkSession vcalls close [] None None) ->
+    forall (sched : list Verif.ATP.System.slabel) (vs : Verif.ATP.SystemVal.vstate),
+      Verif.ATP.SystemVal.vsys_run D vcalls (Verif.ATP.SystemVal.vsys_init vcalls close) sched = Some vs ->
+      Forall (Verif.Proofs.C05Image.ws_ok vcalls) (Verif.ATP.Client.to_server (Verif.ATP.SystemVal.vcl vs)).
+Proof. exact Verif.Proofs.C05Image.image_wire. Qed.
+Print Assumptions C05_value_wire.
+
+(* non-vacuity: the session of C05_transparent_nonvacuous run by the value-level system, same schedule: a maximal
+   execution; the three Executes hold real values *)
+Example C05_transparent_values_nonvacuous :
+  exists vs, Verif.Proofs.C05ImageEx.exv_vfinal = Some vs /\
+             Verif.ATP.SystemVal.vsys_final Verif.Proofs.C05TransparentEx.exv_D Verif.Proofs.C05TransparentEx.exv_calls vs /\
+             Verif.ATP.SystemVal.vsys_res vs 0%nat = Some Verif.Proofs.C05TransparentEx.exv_ra /\
+             Verif.ATP.SystemVal.vsys_res vs 1%nat = Some Verif.Proofs.C05TransparentEx.exv_rb /\
+             Verif.ATP.SystemVal.vsys_res vs 2%nat = Some (Verif.ATP.Client.RErr Verif.ATP.Client.ErrStep) /\
+             Verif.ATP.Client.closer (Verif.ATP.SystemVal.vcl vs) = Verif.ATP.Client.KDone Verif.ATP.Client.CloseOk.
+Proof. exact Verif.Proofs.C05ImageEx.exv_values. Qed.
